@@ -45,28 +45,48 @@ def run_cell(md, c):
     def fresh(n, l=None, a=None):
         return md.Trajectory(np.zeros((n, 1, 3), dtype=np.float32), top, unitcell_lengths=l, unitcell_angles=a)
 
-    if via == "join":
-        segs, k = [], 0
-        for n in c["split"]:
-            segs.append(fresh(n, L[k:k + n].copy(), A[k:k + n].copy()))
-            k += n
-        t = segs[0]
-        for i, sg in enumerate(segs[1:]):
-            t = (t + sg) if i % 2 == 0 else md.join([t, sg])
-    elif via == "reassign":
-        t = fresh(nf, np.repeat(L[:1], nf, axis=0), np.repeat(A[:1], nf, axis=0))
-        _ = t.unitcell_vectors, t.unitcell_volumes            # anything cached from the constant cell must not survive
-        t.unitcell_angles = A
-        t.unitcell_lengths = L
-    elif via == "reverse":
-        t = fresh(nf, L[::-1].copy(), A[::-1].copy())[::-1]
-    elif via == "setattr_angles":
-        t = fresh(nf, L.copy(), np.repeat(A[:1], nf, axis=0))
-        t.unitcell_angles = A
-    else:
-        t = fresh(nf)
-        t.unitcell_lengths = L
-        t.unitcell_angles = A
+    try:
+        if via == "join":
+            segs, k = [], 0
+            for n in c["split"]:
+                segs.append(fresh(n, L[k:k + n].copy(), A[k:k + n].copy()))
+                k += n
+            t = segs[0]
+            for i, sg in enumerate(segs[1:]):
+                t = (t + sg) if i % 2 == 0 else md.join([t, sg])
+        elif via == "join_overlap":
+            # segments that overlap by one frame (all coordinates are zero, so the boundary frames coincide) joined with
+            # discard_overlapping_frames=True: the duplicate is dropped, every remaining frame keeps ITS cell
+            bounds, k = [], 0
+            for n in c["split"]:
+                bounds.append((k, k + n))
+                k += n
+            segs = [fresh(min(b + 1, nf) - a, L[a:min(b + 1, nf)].copy(), A[a:min(b + 1, nf)].copy()) for a, b in bounds]
+            how = c.get("how", "method")
+            if how == "mdjoin":
+                t = md.join(segs, discard_overlapping_frames=True)
+            elif how == "list":
+                t = segs[0].join(segs[1:], discard_overlapping_frames=True)
+            else:
+                t = segs[0]
+                for sg in segs[1:]:
+                    t = t.join(sg, discard_overlapping_frames=True)
+        elif via == "reassign":
+            t = fresh(nf, np.repeat(L[:1], nf, axis=0), np.repeat(A[:1], nf, axis=0))
+            _ = t.unitcell_vectors, t.unitcell_volumes            # anything cached from the constant cell must not survive
+            t.unitcell_angles = A
+            t.unitcell_lengths = L
+        elif via == "reverse":
+            t = fresh(nf, L[::-1].copy(), A[::-1].copy())[::-1]
+        elif via == "setattr_angles":
+            t = fresh(nf, L.copy(), np.repeat(A[:1], nf, axis=0))
+            t.unitcell_angles = A
+        else:
+            t = fresh(nf)
+            t.unitcell_lengths = L
+            t.unitcell_angles = A
+    except Exception as e:  # noqa: BLE001   (building the trajectory by join / slicing / assignment must not raise)
+        return {"vectors": err(e), "built": False}
     try:
         out["vectors"] = lst(t.unitcell_vectors)
         out["volumes"] = lst(t.unitcell_volumes)
@@ -123,23 +143,28 @@ NEEDS_TOP = (".xtc", ".trr", ".dcd", ".nc", ".netcdf", ".ncdf", ".ncrst", ".crd"
              ".rst7", ".dtr")
 
 
-def saveload(md, d, exts):
+def saveload(md, d, exts, atom_counts=(4,)):
     """every writable format x {no cell, triclinic cell, rectilinear cell} x {1, 3 frames}: what comes back.
     -> {ext: {"none/1": outcome, ...}}; outcome = {"refused": errclass} | {"have": bool, "half": bool, "frames": n,
     "per_frame": bool, "values_ok": bool} | {"load_error": ...}"""
     res = {}
-    top = md.Topology()
-    ch = top.add_chain()
-    for i in range(4):
-        top.add_atom("CA", md.element.carbon, top.add_residue("ALA", ch))
+    tops = {}
+    for na in set(atom_counts) | {4}:
+        tp = md.Topology()
+        ch = tp.add_chain()
+        for i in range(na):
+            tp.add_atom("CA", md.element.carbon, tp.add_residue("ALA", ch))
+        tops[na] = tp
+    top = tops[4]
     import inspect
     OPTION_VALUES = {"force_overwrite": [False], "header": [False], "ter": [False], "bfactors": ["per-atom"], "precision": [5, 1],
                      "mode": ["a"]}
     for ext in exts:
         row = {}
-        combos = [(cell, nf, None, None) for cell in ("none", "triclinic", "rectilinear") for nf in (1, 3)]
+        # the number of atoms varies too (odd / even counts fill the last coordinate line of the text formats differently)
+        combos = [(cell, nf, None, None, na) for na in atom_counts for cell in ("none", "triclinic", "rectilinear") for nf in (1, 3)]
         # every keyword argument the saver accepts (found by introspection), switched away from its default
-        probe = md.Trajectory(np.zeros((1, 4, 3), dtype=np.float32), top)
+        probe = md.Trajectory(np.zeros((1, 4, 3), dtype=np.float32), tops[4])
         params = [p_ for p_ in list(inspect.signature(probe._savers()[ext]).parameters)[1:]]
         for o in params:
             if o not in OPTION_VALUES:
@@ -149,20 +174,25 @@ def saveload(md, d, exts):
                 for cell in ("none", "triclinic", "rectilinear"):
                     # (save_pdb(header=False) writes no MODEL records, so several frames read back as one: single frame)
                     for nf in ((1,) if (o == "header" or ext in (".rst7", ".ncrst")) else (1, 3)):
-                        combos.append((cell, nf, o, val))
-        for cell, nf, o, val in combos:
+                        combos.append((cell, nf, o, val, atom_counts[(len(combos)) % len(atom_counts)]))
+        for cell, nf, o, val, na in combos:
+            if ext in (".crd", ".mdcrd") and na == 1:
+                # inherent to the format, not judged: the coordinate line of a one-atom frame (three numbers) cannot be told
+                # from a box line, so the reader's box detection has nothing to go by (OSError "Inconsistent box information")
+                continue
             if True:
+                top = tops[na]
                 rng = np.random.RandomState(5)
-                xyz = rng.rand(nf, 4, 3).astype(np.float32)
+                xyz = rng.rand(nf, na, 3).astype(np.float32)
                 L = (np.array([[3.0, 4.0, 5.0]]) + 0.125 * np.arange(nf)[:, None]).astype(np.float32)
                 A = np.array([[80.0, 95.0, 110.0] if cell == "triclinic" else [90.0, 90.0, 90.0]] * nf, dtype=np.float32)
                 t = md.Trajectory(xyz.copy(), top, unitcell_lengths=L if cell != "none" else None,
                                   unitcell_angles=A if cell != "none" else None)
-                p = os.path.join(d, "%s_%d_%s%s%s" % (cell, nf, o or "", str(val).replace("-", ""), ext))
-                key = ("opt:%s=%s/%s/%d" % (o, val, cell, nf)) if o else ("%s/%d" % (cell, nf))
+                p = os.path.join(d, "%s_%d_%d_%s%s%s" % (cell, nf, na, o or "", str(val).replace("-", ""), ext))
+                key = ("opt:%s=%s/%s/%d/a%d" % (o, val, cell, nf, na)) if o else ("%s/%d/a%d" % (cell, nf, na))
                 kw = {}
                 if o:
-                    kw[o] = np.linspace(0.0, 9.0, 4) if val == "per-atom" else val
+                    kw[o] = np.linspace(0.0, 9.0, na) if val == "per-atom" else val
                 try:
                     t.save(p, **kw)
                 except Exception as e:  # noqa: BLE001
@@ -174,7 +204,7 @@ def saveload(md, d, exts):
                         # one numbered file per frame (name.rst7.1 ...): give each its extension back to load it
                         loaded = []
                         for i in range(nf):
-                            q = os.path.join(d, "%s_%d_part%d%s" % (cell, nf, i + 1, ext))
+                            q = os.path.join(d, "%s_%d_%d_part%d%s" % (cell, nf, na, i + 1, ext))
                             shutil.copy("%s.%d" % (p, i + 1), q)
                             loaded.append(md.load(q, top=top))
                     else:
@@ -183,6 +213,8 @@ def saveload(md, d, exts):
                     anyhave = any(bool(u._have_unitcell) for u in loaded)
                     half = any((u.unitcell_lengths is None) != (u.unitcell_angles is None) for u in loaded)
                     frames = sum(u.n_frames for u in loaded)
+                    if any(u.n_atoms != na for u in loaded):
+                        raise RuntimeError("loaded %s atoms, saved %d" % ([u.n_atoms for u in loaded], na))
                     per_frame = all(u.unitcell_lengths is None or u.unitcell_lengths.shape == (u.n_frames, 3) for u in loaded)
                     ok = True
                     if have and cell != "none":
@@ -331,7 +363,7 @@ def main():
     if payload.get("saveload"):
         d = tempfile.mkdtemp(prefix="c17sl-", dir=".")
         try:
-            out["saveload"] = saveload(md, d, payload["saveload"])
+            out["saveload"] = saveload(md, d, payload["saveload"], tuple(payload.get("atom_counts") or (4,)))
         finally:
             shutil.rmtree(d, ignore_errors=True)
     print(json.dumps(out))
